@@ -810,6 +810,11 @@ class _ExprNorm(ast.NodeTransformer):
             return ast.copy_location(ast.GeneratorExp(elt=ast.Name(id=b, ctx=ast.Load()), generators=[
                 ast.comprehension(target=ast.Name(id=a, ctx=ast.Store()), iter=node.args[0], ifs=[], is_async=0),
                 ast.comprehension(target=ast.Name(id=b, ctx=ast.Store()), iter=ast.Name(id=a, ctx=ast.Load()), ifs=[], is_async=0)]), node)
+        # m.group(k) -> m.groups()[k - 1]   (k >= 1: the k-th group of a match)
+        if isinstance(node.func, ast.Attribute) and node.func.attr == "group" and len(node.args) == 1 and not node.keywords \
+                and isinstance(node.args[0], ast.Constant) and type(node.args[0].value) is int and node.args[0].value >= 1:
+            return ast.copy_location(ast.Subscript(value=ast.Call(func=ast.Attribute(value=node.func.value, attr="groups", ctx=ast.Load()), args=[], keywords=[]),
+                                                   slice=ast.Constant(node.args[0].value - 1), ctx=ast.Load()), node)
         # any(v == E for v in X) -> E in X   (membership is `==` against each element in turn)
         if f == "any" and len(node.args) == 1 and not node.keywords and isinstance(node.args[0], (ast.GeneratorExp, ast.ListComp)):
             g = node.args[0]
